@@ -356,28 +356,20 @@ void SQuIDS::Set_xrange(const std::vector<double>& xs){
 }
 
 unsigned int SQuIDS::Get_i(double xi) const{
-  double xl, xr;
   unsigned int nr=nx-1;
   unsigned int nl=0;
 
-  xl=x[nl];
-  xr=x[nr];
-
-  if(xi>xr || xi<xl)
+  if(xi>x[nr] || xi<x[nl])
     throw std::runtime_error(" Error SQUIDS::Get_i :  value  out of bounds");
 
+  //bisection on the node values themselves: x[nl] <= xi <= x[nr] holds throughout,
+  //for any sorted grid (not only uniformly spaced ones)
   while((nr-nl)>1){
-    if(((nr-nl)%2)!=0){
-      if(nr<nx-1)nr++;
-      else if(nl>0)nl--;
-    }
-    if(xi<(xl+(xr-xl)/2)){
-      nr=nl+(nr-nl)/2;
-      xr=x[nr];
-    }else{
-      nl=nl+(nr-nl)/2;
-      xl=x[nl];
-    }
+    unsigned int nm=nl+(nr-nl)/2;
+    if(xi<x[nm])
+      nr=nm;
+    else
+      nl=nm;
   }
   return nl;
 }
